@@ -34,12 +34,13 @@ from harness.core import PY, VERIF, clist, log, parse_coq_list_of_nat
 PROPS = 'C20/Props.v'
 DRIVER = os.path.join(VERIF, 'harness/impl/c20_driver.py')
 REL_TOL = 1e-10
+JOBS = int(os.environ.get('VERIF_C20_JOBS', '4'))     # fault histories executed at the same time
 ROLES = ['pyx', 'c', 'o', 'so']
 ROLE_COQ = {'pyx': 'Pyx', 'c': 'Cfile', 'o': 'Obj', 'so': 'So'}
 CLASSES = ['Empty', 'Header', 'Half', 'AllButLast', 'Garbage']
 CLASS_CODE = {'Empty': 2, 'Header': 3, 'Half': 4, 'AllButLast': 5, 'Garbage': 6}
 OC_NAME = {0: 'ok', 1: 'exception', 2: 'interpreter-death', 3: 'killed', 4: 'wrong-assembler', 5: 'no-result'}
-STAGE_CODE = {'import': 1, 'mkdtemp': 2, 'replace': 50, 'cleanup': 51, 'reimport': 52}
+STAGE_CODE = {'mkdir': 3, 'import': 1, 'mkdtemp': 2, 'replace': 50, 'cleanup': 51, 'reimport': 52}
 for _i, _r in enumerate(ROLES):
     for _k in range(5):
         STAGE_CODE['%s%d' % (_r, _k)] = 10 * (_i + 1) + _k
@@ -57,7 +58,7 @@ def size_for_class(k, size):   # same convention as the driver
 
 def coq_pc(stage):
     if isinstance(stage, str):
-        return {'import': 'PImport', 'mkdtemp': 'PMkdtemp', 'replace': 'PReplace', 'cleanup': 'PCleanup',
+        return {'mkdir': 'PMkdir', 'import': 'PImport', 'mkdtemp': 'PMkdtemp', 'replace': 'PReplace', 'cleanup': 'PCleanup',
                 'reimport': 'PReimport'}[stage]
     return '(PWrite %s W%d)' % (ROLE_COQ[stage[0]], stage[1])
 
@@ -425,6 +426,16 @@ def coq_case(h):
     return '(%s, %s)' % (ev, ob)
 
 
+def cold_race(lab, spec):
+    base = lab.fresh('cold')
+    os.makedirs(base)
+    try:
+        res = lab.oneshot(dict(spec, mode='coldrace', base=base), os.path.join(base, 'xdg'))
+    finally:
+        shutil.rmtree(base, ignore_errors=True)
+    return spec, res
+
+
 def property_on_impl(h, crash_classes):
     """The property, evaluated on what the real processes did.  Returns None or (kind, text)."""
     complete_since = {}
@@ -523,7 +534,7 @@ def _run(ctx, thorough, base):
             if r.get('status') == 'importerror':
                 return 'ImpErr'
             return 'Crash'
-        with ThreadPoolExecutor(5) as ex:
+        with ThreadPoolExecutor(JOBS) as ex:
             oracle = dict(zip(CLASSES, ex.map(probe, CLASSES)))
     else:
         oracle = {'Empty': 'ImpErr', 'Header': 'Crash', 'Half': 'Loads', 'AllButLast': 'Loads', 'Garbage': 'ImpErr'}
@@ -617,18 +628,26 @@ def _run(ctx, thorough, base):
     nkills = 6 if thorough else 0
     build_s = max(8.0, time.time() - t0)
     delays = [2.0 + rng.random() * min(build_s, 60.0) for _ in range(nkills)]
-    with ThreadPoolExecutor(16) as ex:
-        f_h = [ex.submit(lab.run_history, h) for h in histories[:8]]
-        f_r = [ex.submit(race, a) for a in zip(race_specs[:1], race_offs[:1])]
-        f_h += [ex.submit(lab.run_history, h) for h in histories[8:]]
+    with ThreadPoolExecutor(JOBS) as ex:
+        f_h = [ex.submit(lab.run_history, h) for h in histories]
         f_k = [ex.submit(random_kill, d) for d in delays]
         results = [f.result() for f in f_h]
         kills = [f.result() for f in f_k]
-        races = [f.result() for f in f_r]
-    # the large races get the machine for themselves
-    for a in list(zip(race_specs, race_offs))[1:]:
-        races.append(race(a))
-    log('[C20] histories and races done, %.0fs' % (time.time() - t0))
+    log('[C20] histories done, %.0fs' % (time.time() - t0))
+    # the races get the machine for themselves
+    races = [race(a) for a in zip(race_specs, race_offs)]
+    log('[C20] races done, %.0fs' % (time.time() - t0))
+    # ---- 7. cold start: the first requests of N processes, released together, hit a cache directory that
+    #         does not exist yet (fresh machine, or right after scripts/clear-cache.py which removes MODDIR).
+    #         Only directory set-up + lookup + import are raced (many short rounds); the build is a stub.
+    cold_specs = []
+    for nproc in ([2, 4, 8, 16] if not thorough else [2, 3, 4, 8, 12, 16, 16]):
+        nsame = rng.randint(1, nproc)          # processes 0..nsame-1 ask for the same form, the rest differ
+        cold_specs.append({'nproc': nproc, 'rounds': 150 if thorough else (40 if nproc <= 4 else 20),
+                           'depth': rng.choice([1, 2, 3]),
+                           'forms': [0 if i < nsame else i for i in range(nproc)]})
+    colds = [cold_race(lab, spec) for spec in cold_specs]
+    log('[C20] cold-start races done, %.0fs' % (time.time() - t0))
 
     if os.environ.get('C20_DEBUG'):
         json.dump({'results': results, 'races': races, 'kills': kills, 'oracle': oracle}, open(os.environ['C20_DEBUG'], 'w'), default=str)
@@ -662,7 +681,21 @@ def _run(ctx, thorough, base):
             ctx.report('impl:%s:random-sigkill' % OC_NAME[k['after']],
                        'SIGKILL of the compiling process group after %.2fs: the next request ended with %s' % (
                            k['delay'], OC_NAME[k['after']]), k)
-    ctx.cov['traces_validated_against_impl'] = len(results) + len(races) + len(kills)
+    for spec, res in colds:
+        ctx.count(('cold', spec['nproc'], spec['depth'], spec['forms']), n=spec['rounds'])
+        if res.get('nfail') or res.get('died') or res.get('reports') != spec['nproc']:
+            nfail += 1
+            first = (res.get('failures') or [[None, None, 'worker(s) %s died / did not report' % res.get('died')]])[0]
+            kind = 'exception' if res.get('nfail') else 'interpreter-death'
+            ctx.report('impl:%s:cold-start-race' % kind,
+                       'cold start: %d processes released together issue their first request against a cache '
+                       'directory whose last %d path component(s) do not exist yet; %s request(s) in %d rounds did '
+                       'not obtain their module, first: process %s round %s: %s' % (
+                           spec['nproc'], spec['depth'], res.get('nfail'), spec['rounds'], first[0], first[1], first[2]),
+                       {'kind': 'coldrace', 'spec': spec, 'result': res,
+                        'how': 'driver mode coldrace (harness/impl/c20_driver.py): forked workers + barrier, '
+                               'compile.compile_cython_module(src) with only _compile_cython_module_nocache stubbed'})
+    ctx.cov['traces_validated_against_impl'] = len(results) + len(races) + len(kills) + len(colds)
     ctx.cov['property_failures_on_impl'] = nfail
 
     # ---- stage 2: the tie: model prediction == observation, per event --------------------------------------
@@ -721,6 +754,7 @@ def _run(ctx, thorough, base):
     ctx.cov['input_distribution'] = {
         'crash_points': len(snaps), 'crash_points_requested': len(stops), 'histories': len(results),
         'races': [len(r['forms']) for r in races], 'random_sigkills': len(kills), 'processes_started': lab.nproc,
+        'cold_start_races': [{'nproc': sp['nproc'], 'rounds': sp['rounds'], 'depth': sp['depth']} for sp, _ in colds],
         'monitor_polls': sum(r['polls'] for r in races)}
     ctx.cov['oracle'] = oracle
     ctx.cov['impl_matches_old_protocol_model'] = matches_old
@@ -740,6 +774,13 @@ def replay(ctx, data):
     base = tempfile.mkdtemp(prefix='C20-%d-' % os.getpid(), dir='/var/tmp')
     try:
         lab = Lab(ctx, base)
+        if data['replay'].get('kind') == 'coldrace':
+            spec, res = cold_race(lab, data['replay']['spec'])
+            log('[C20] replay: %s' % (res,))
+            if res.get('nfail') or res.get('died') or res.get('reports') != spec['nproc']:
+                ctx.report(data.get('signature', 'impl:replay'), 'replayed cold-start race: %s' % (res.get('failures') or res)[:1],
+                           {'kind': 'coldrace', 'spec': spec, 'result': res})
+            return ctx.finish()
         ev = [tuple(e) for e in data['replay']['events']]
         h = lab.run_history({'name': 'replay', 'events': ev})
         log('[C20] replay: observed %s' % (h['obs'],))
